@@ -1,5 +1,751 @@
-//! Conformance harness for property C15, see /verif/DESIGN.md.
+//! Conformance harness for property C15 (executor wake-ups), see
+//! /verif/DESIGN.md section 6 "C15" and spec/ExecutorAbs.tla.
+//!
+//! Instrumented futures perform scripted (replay of a behaviour of
+//! spec/Executor.tla) or seeded random actions against the real
+//! `yash_executor::{Executor, Spawner, forwarder::Receiver}`; the harness steps
+//! the real executor and records one event per poll-begin / action / poll-end /
+//! external operation, each with `Executor::wake_count()`.  The events are
+//! judged by TLC (spec/Trace_Executor.tla); this program contains no oracle.
+//! The only comparison made here is *equality* of an observed event sequence
+//! with the sequence predicted by the TLC-checked driver model, used as a
+//! filter (DESIGN.md 4.2): unequal sequences are written out for validation.
+//!
+//! Sub-commands:
+//!   replay --in B.ndjson --mismatch M.ndjson --sample S.ndjson
+//!          [--sample-every N] [--max-mismatch K]         (stats on stdout)
+//!   random --runs R --tasks N --chans K --budget B --steps L --out T.ndjson
+//!   redo   --in one.json --out T.ndjson     (re-run one replay object)
+
+use rand::rngs::StdRng;
+use rand::{Rng, SeedableRng};
+use serde_json::{Value, json};
+use std::cell::RefCell;
+use std::collections::VecDeque;
+use std::future::Future;
+use std::io::{BufRead, Write};
+use std::pin::Pin;
+use std::rc::Rc;
+use std::task::{Context, Poll, Waker};
+use yash_executor::forwarder::{Receiver, TryReceiveError};
+use yash_executor::{Executor, Spawner};
+use yvcommon::util::{catch, open_in, opt, opt_usize, quiet_panics, seed};
+
+/// One trace event; the field set is the same for every kind so that the TLA+
+/// side sees mono-typed records.
+#[derive(Clone, Debug, PartialEq)]
+struct Evt {
+    ev: String,
+    t: i64,
+    a: i64,
+    r: String,
+    b: bool,
+    v: i64,
+    wc: i64,
+}
+
+impl Evt {
+    fn to_json(&self) -> Value {
+        json!({"ev": self.ev, "t": self.t, "a": self.a, "r": self.r, "b": self.b, "v": self.v, "wc": self.wc})
+    }
+    fn from_tuple(x: &Value) -> Option<Evt> {
+        let a = x.as_array()?;
+        Some(Evt {
+            ev: a.first()?.as_str()?.to_string(),
+            t: a.get(1)?.as_i64()?,
+            a: a.get(2)?.as_i64()?,
+            r: a.get(3)?.as_str()?.to_string(),
+            b: a.get(4)?.as_bool()?,
+            v: a.get(5)?.as_i64()?,
+            wc: a.get(6)?.as_i64()?,
+        })
+    }
+    fn from_obj(x: &Value) -> Option<Evt> {
+        Some(Evt {
+            ev: x.get("ev")?.as_str()?.to_string(),
+            t: x.get("t")?.as_i64()?,
+            a: x.get("a")?.as_i64()?,
+            r: x.get("r")?.as_str()?.to_string(),
+            b: x.get("b")?.as_bool()?,
+            v: x.get("v")?.as_i64()?,
+            wc: x.get("wc")?.as_i64()?,
+        })
+    }
+}
+
+#[derive(Clone, Copy, Debug, PartialEq)]
+enum Act {
+    Yield,
+    Wait(usize),
+    Signal(usize),
+    Spawn(bool),
+    Kick(usize),
+    Await(usize),
+    Complete,
+}
+
+#[derive(Clone, Copy, Debug, PartialEq)]
+enum Blk {
+    Free,
+    Wait(usize),
+    Await(usize),
+}
+
+#[derive(Default)]
+struct Chan {
+    sig: bool,
+    waiters: Vec<(usize, Waker)>,
+}
+
+struct RandomSrc {
+    rng: StdRng,
+    budget: usize,
+    max_tasks: usize,
+    pinned: bool,
+}
+
+enum Source {
+    /// per task id: remaining scripted actions
+    Scripts(Vec<VecDeque<Act>>),
+    Random(RandomSrc),
+}
+
+struct World {
+    exec: Option<Executor<'static>>,
+    spawner: Spawner<'static>,
+    events: Vec<Evt>,
+    chans: Vec<Chan>,
+    stash: Vec<Option<Waker>>,      // by task id (index 0 unused)
+    rx: Vec<Option<Receiver<i64>>>, // by task id
+    parent: Vec<usize>,
+    received: Vec<bool>,
+    finished: Vec<bool>,
+    blk: Vec<Blk>,
+    left: Vec<usize>,
+    next_id: usize,
+    src: Source,
+    /// the scripts ran out or referred to something that does not exist in
+    /// this execution (possible only after model drift): stop the run
+    cut: bool,
+    polled_in_step: Vec<usize>,
+}
+
+type W = Rc<RefCell<World>>;
+
+fn wc(w: &W) -> i64 {
+    let e = w.borrow().exec.clone();
+    match e {
+        Some(e) => e.wake_count() as i64,
+        None => -1,
+    }
+}
+
+fn rec(w: &W, ev: &str, t: usize, a: usize, r: &str, b: bool, v: i64, with_wc: bool) {
+    let c = if with_wc { wc(w) } else { -1 };
+    w.borrow_mut().events.push(Evt {
+        ev: ev.to_string(),
+        t: t as i64,
+        a: a as i64,
+        r: r.to_string(),
+        b,
+        v,
+        wc: c,
+    });
+}
+
+fn grow(w: &mut World, id: usize) {
+    while w.stash.len() <= id {
+        w.stash.push(None);
+        w.rx.push(None);
+        w.parent.push(0);
+        w.received.push(false);
+        w.finished.push(false);
+        w.blk.push(Blk::Free);
+        w.left.push(0);
+        if let Source::Scripts(s) = &mut w.src {
+            while s.len() < w.stash.len() {
+                s.push(VecDeque::new());
+            }
+        }
+    }
+}
+
+/// The instrumented task body.
+struct TaskFut {
+    id: usize,
+    world: W,
+}
+
+/// Spawns a new task (externally if `by == 0`, else from inside `by`'s poll
+/// through the `Spawner`).  Returns the new id.
+fn do_spawn(w: &W, by: usize, with_rx: bool) -> usize {
+    let id = {
+        let mut wm = w.borrow_mut();
+        let id = wm.next_id;
+        wm.next_id += 1;
+        grow(&mut wm, id);
+        wm.parent[id] = by;
+        if let Source::Random(r) = &wm.src {
+            wm.left[id] = r.budget;
+        }
+        id
+    };
+    let fut = TaskFut { id, world: Rc::clone(w) };
+    let exec = w.borrow().exec.clone().expect("executor alive");
+    let spawner = w.borrow().spawner.clone();
+    if with_rx {
+        let rx = if by == 0 {
+            unsafe { exec.spawn(fut) }
+        } else {
+            unsafe { spawner.spawn(fut) }.expect("spawner alive")
+        };
+        w.borrow_mut().rx[id] = Some(rx);
+    } else {
+        let f: Pin<Box<dyn Future<Output = ()>>> = Box::pin(async move {
+            fut.await;
+        });
+        if by == 0 {
+            unsafe { exec.spawn_pinned(f) }
+        } else {
+            unsafe { spawner.spawn_pinned(f) }.expect("spawner alive")
+        }
+    }
+    rec(w, "spawn", by, id, "", with_rx, 0, true);
+    id
+}
+
+/// Wakes task `u` through the stashed clone of its last waker.
+fn do_kick(w: &W, by: usize, u: usize) -> bool {
+    let wk = w.borrow().stash.get(u).and_then(|x| x.clone());
+    match wk {
+        Some(wk) => {
+            if (by + u) % 2 == 0 {
+                wk.wake_by_ref();
+            } else {
+                wk.wake();
+            }
+            rec(w, "kick", by, u, "", false, 0, true);
+            true
+        }
+        None => false,
+    }
+}
+
+fn do_try(w: &W, c: usize) -> bool {
+    let res = {
+        let wb = w.borrow();
+        match wb.rx.get(c).and_then(|x| x.as_ref()) {
+            Some(rx) => Some(rx.try_receive()),
+            None => None,
+        }
+    };
+    match res {
+        None => false,
+        Some(res) => {
+            let (r, v) = match res {
+                Ok(v) => ("ok", v),
+                Err(TryReceiveError::NotSent) => ("notsent", 0),
+                Err(TryReceiveError::AlreadyReceived) => ("already", 0),
+                Err(TryReceiveError::SenderDropped) => ("dropped", 0),
+            };
+            if r == "ok" {
+                w.borrow_mut().received[c] = true;
+            }
+            rec(w, "try", 0, c, r, false, v, true);
+            true
+        }
+    }
+}
+
+impl TaskFut {
+    /// The next action of this task: the retry of what it is blocked in, else
+    /// the next scripted / randomly chosen one.  None = cut.
+    fn next_action(&self) -> Option<(Act, bool)> {
+        let id = self.id;
+        let mut wm = self.world.borrow_mut();
+        match wm.blk[id] {
+            Blk::Wait(k) => return Some((Act::Wait(k), true)),
+            Blk::Await(c) => return Some((Act::Await(c), true)),
+            Blk::Free => {}
+        }
+        let wm = &mut *wm;
+        match &mut wm.src {
+            Source::Scripts(s) => s[id].pop_front().map(|a| (a, false)),
+            Source::Random(r) => {
+                if wm.left[id] == 0 {
+                    return Some((Act::Complete, false));
+                }
+                let nchan = wm.chans.len() - 1;
+                loop {
+                    let a = match r.rng.gen_range(0..100) {
+                        0..=21 => Act::Yield,
+                        22..=39 => Act::Wait(r.rng.gen_range(1..=nchan)),
+                        40..=57 => Act::Signal(r.rng.gen_range(1..=nchan)),
+                        58..=69 => {
+                            if wm.next_id > r.max_tasks {
+                                continue;
+                            }
+                            Act::Spawn(!(r.pinned && r.rng.gen_range(0..4) == 0))
+                        }
+                        70..=79 => {
+                            let c: Vec<usize> = (1..wm.next_id)
+                                .filter(|&u| u != id && wm.stash[u].is_some())
+                                .collect();
+                            if c.is_empty() {
+                                continue;
+                            }
+                            Act::Kick(c[r.rng.gen_range(0..c.len())])
+                        }
+                        80..=93 => {
+                            let c: Vec<usize> = (1..wm.next_id)
+                                .filter(|&c| wm.parent[c] == id && wm.rx[c].is_some() && !wm.received[c])
+                                .collect();
+                            if c.is_empty() {
+                                continue;
+                            }
+                            Act::Await(c[r.rng.gen_range(0..c.len())])
+                        }
+                        _ => Act::Complete,
+                    };
+                    if a != Act::Complete {
+                        wm.left[id] -= 1;
+                    }
+                    return Some((a, false));
+                }
+            }
+        }
+    }
+}
+
+impl Future for TaskFut {
+    type Output = i64;
+
+    fn poll(self: Pin<&mut Self>, cx: &mut Context<'_>) -> Poll<i64> {
+        let id = self.id;
+        let w = &self.world;
+        rec(w, "pb", id, 0, "", false, 0, true);
+        w.borrow_mut().polled_in_step.push(id);
+        // stash a clone of the current waker (drops the previous clone)
+        let old = w.borrow_mut().stash[id].replace(cx.waker().clone());
+        drop(old);
+        loop {
+            let Some((act, re)) = self.next_action() else {
+                w.borrow_mut().cut = true;
+                return Poll::Pending;
+            };
+            match act {
+                Act::Yield => {
+                    cx.waker().wake_by_ref();
+                    rec(w, "yield", id, 0, "", false, 0, true);
+                    return Poll::Pending;
+                }
+                Act::Wait(k) => {
+                    let pass = {
+                        let mut wm = w.borrow_mut();
+                        if wm.chans[k].sig {
+                            wm.chans[k].sig = false;
+                            wm.blk[id] = Blk::Free;
+                            true
+                        } else {
+                            let wk = cx.waker().clone();
+                            let old = match wm.chans[k].waiters.iter_mut().find(|(t, _)| *t == id) {
+                                Some(slot) => Some(std::mem::replace(&mut slot.1, wk)),
+                                None => {
+                                    wm.chans[k].waiters.push((id, wk));
+                                    None
+                                }
+                            };
+                            wm.blk[id] = Blk::Wait(k);
+                            drop(wm);
+                            drop(old);
+                            false
+                        }
+                    };
+                    rec(w, "wait", id, k, if pass { "pass" } else { "block" }, re, 0, true);
+                    if !pass {
+                        return Poll::Pending;
+                    }
+                }
+                Act::Signal(k) => {
+                    let ws = {
+                        let mut wm = w.borrow_mut();
+                        wm.chans[k].sig = true;
+                        std::mem::take(&mut wm.chans[k].waiters)
+                    };
+                    for (_, wk) in ws {
+                        wk.wake();
+                    }
+                    rec(w, "signal", id, k, "", false, 0, true);
+                }
+                Act::Spawn(rl) => {
+                    do_spawn(w, id, rl);
+                }
+                Act::Kick(u) => {
+                    if !do_kick(w, id, u) {
+                        w.borrow_mut().cut = true;
+                        return Poll::Pending;
+                    }
+                }
+                Act::Await(c) => {
+                    // take the receiver out while polling it so that no
+                    // RefCell borrow of the world is held across the call
+                    let rx = {
+                        let mut wm = w.borrow_mut();
+                        if c < wm.rx.len() && wm.parent[c] == id && !wm.received[c] {
+                            wm.rx[c].take()
+                        } else {
+                            None
+                        }
+                    };
+                    let Some(mut rx) = rx else {
+                        w.borrow_mut().cut = true;
+                        return Poll::Pending;
+                    };
+                    let p = Pin::new(&mut rx).poll(cx);
+                    {
+                        let mut wm = w.borrow_mut();
+                        wm.rx[c] = Some(rx);
+                        match p {
+                            Poll::Ready(_) => {
+                                wm.received[c] = true;
+                                wm.blk[id] = Blk::Free;
+                            }
+                            Poll::Pending => wm.blk[id] = Blk::Await(c),
+                        }
+                    }
+                    match p {
+                        Poll::Ready(v) => rec(w, "await", id, c, "recv", re, v, true),
+                        Poll::Pending => {
+                            rec(w, "await", id, c, "block", re, 0, true);
+                            return Poll::Pending;
+                        }
+                    }
+                }
+                Act::Complete => {
+                    w.borrow_mut().finished[id] = true;
+                    // the relay is filled after we return: no wake_count here
+                    rec(w, "complete", id, 0, "", false, 0, false);
+                    return Poll::Ready(100 + id as i64);
+                }
+            }
+        }
+    }
+}
+
+fn new_world(nchan: usize, src: Source) -> W {
+    let exec = Executor::new();
+    let spawner = exec.spawner();
+    let mut chans = Vec::new();
+    for _ in 0..=nchan {
+        chans.push(Chan::default());
+    }
+    let w = World {
+        exec: Some(exec),
+        spawner,
+        events: Vec::new(),
+        chans,
+        stash: vec![None],
+        rx: vec![None],
+        parent: vec![0],
+        received: vec![false],
+        finished: vec![false],
+        blk: vec![Blk::Free],
+        left: vec![0],
+        next_id: 1,
+        src,
+        cut: false,
+        polled_in_step: Vec::new(),
+    };
+    Rc::new(RefCell::new(w))
+}
+
+/// Breaks the reference cycles (task -> future -> world -> wakers -> task).
+fn teardown(w: &W) -> Vec<Evt> {
+    let (exec, chans, stash, rx, events) = {
+        let mut wm = w.borrow_mut();
+        (
+            wm.exec.take(),
+            std::mem::take(&mut wm.chans),
+            std::mem::take(&mut wm.stash),
+            std::mem::take(&mut wm.rx),
+            std::mem::take(&mut wm.events),
+        )
+    };
+    drop(chans);
+    drop(stash);
+    drop(rx);
+    drop(exec);
+    events
+}
+
+/// One call of `Executor::step`, recorded.  Returns false if the run must end
+/// (panic in the code under test, or cut).
+fn do_step(w: &W) -> bool {
+    let exec = w.borrow().exec.clone().expect("executor alive");
+    w.borrow_mut().polled_in_step.clear();
+    let r = catch(|| exec.step());
+    let polled = std::mem::take(&mut w.borrow_mut().polled_in_step);
+    if w.borrow().cut {
+        // drop what the cut poll recorded: the trace ends before it
+        let mut wm = w.borrow_mut();
+        if let Some(&t) = polled.last() {
+            if let Some(i) = wm.events.iter().rposition(|e| e.ev == "pb" && e.t == t as i64) {
+                wm.events.truncate(i);
+            }
+        }
+        return false;
+    }
+    match r {
+        Err(msg) => {
+            let t = polled.last().copied().unwrap_or(0);
+            rec(w, "panic", t, 0, &msg.chars().take(60).collect::<String>(), false, 0, false);
+            false
+        }
+        Ok(None) => {
+            rec(w, "stall", 0, 0, "", false, 0, true);
+            true
+        }
+        Ok(Some(ret)) => {
+            match polled.last() {
+                Some(&t) => rec(w, "pe", t, 0, "", ret, 0, true),
+                None => rec(w, "noop", 0, 0, "", ret, 0, true),
+            }
+            true
+        }
+    }
+}
+
+/// Replays one behaviour of the driver model: external operations and step()
+/// calls in the model's order, task bodies performing the model's actions.
+fn run_behaviour(h: &[Evt], nchan: usize) -> Vec<Evt> {
+    let ntask = h.iter().map(|e| e.t.max(if e.ev == "spawn" { e.a } else { 0 })).max().unwrap_or(0) as usize;
+    let mut scripts: Vec<VecDeque<Act>> = vec![VecDeque::new(); ntask + 2];
+    for e in h {
+        let t = e.t as usize;
+        let a = e.a as usize;
+        let act = match e.ev.as_str() {
+            "yield" => Some(Act::Yield),
+            "wait" if !e.b => Some(Act::Wait(a)),
+            "signal" => Some(Act::Signal(a)),
+            "spawn" if t > 0 => Some(Act::Spawn(e.b)),
+            "kick" if t > 0 => Some(Act::Kick(a)),
+            "await" if !e.b => Some(Act::Await(a)),
+            "complete" => Some(Act::Complete),
+            _ => None,
+        };
+        if let Some(act) = act {
+            scripts[t].push_back(act);
+        }
+    }
+    let w = new_world(nchan, Source::Scripts(scripts));
+    for e in h {
+        let go = match (e.ev.as_str(), e.t) {
+            ("spawn", 0) => {
+                do_spawn(&w, 0, e.b);
+                true
+            }
+            ("kick", 0) => do_kick(&w, 0, e.a as usize),
+            ("try", _) => do_try(&w, e.a as usize),
+            ("pb", _) | ("noop", _) | ("stall", _) => do_step(&w),
+            _ => true,
+        };
+        if !go {
+            break;
+        }
+    }
+    teardown(&w)
+}
+
+struct RandParams {
+    tasks: usize,
+    chans: usize,
+    budget: usize,
+    steps: usize,
+    pinned: bool,
+}
+
+/// One seeded random run of a larger system.
+fn run_random(sd: u64, p: &RandParams) -> Vec<Evt> {
+    let mut rng = StdRng::seed_from_u64(sd);
+    let inner = StdRng::seed_from_u64(rng.r#gen());
+    let w = new_world(
+        p.chans,
+        Source::Random(RandomSrc { rng: inner, budget: p.budget, max_tasks: p.tasks, pinned: p.pinned }),
+    );
+    let max_roots = rng.gen_range(1..=p.tasks.min(4));
+    let mut roots = 0;
+    let mut stalled = 0;
+    for _ in 0..p.steps {
+        let (next_id, can_try, can_kick): (usize, Vec<usize>, Vec<usize>) = {
+            let wb = w.borrow();
+            let ct = (1..wb.next_id)
+                .filter(|&c| wb.rx[c].is_some() && (wb.parent[c] == 0 || wb.finished[wb.parent[c]]))
+                .collect();
+            let ck = (1..wb.next_id).filter(|&u| wb.stash[u].is_some()).collect();
+            (wb.next_id, ct, ck)
+        };
+        let x = rng.gen_range(0..100);
+        let go = if roots == 0 || (x < 8 && roots < max_roots && next_id <= p.tasks) {
+            roots += 1;
+            let rl = !(p.pinned && rng.gen_range(0..4) == 0);
+            do_spawn(&w, 0, rl);
+            true
+        } else if x < 16 && !can_kick.is_empty() {
+            do_kick(&w, 0, can_kick[rng.gen_range(0..can_kick.len())])
+        } else if x < 22 && !can_try.is_empty() {
+            do_try(&w, can_try[rng.gen_range(0..can_try.len())])
+        } else {
+            let g = do_step(&w);
+            if w.borrow().events.last().map(|e| e.ev == "stall").unwrap_or(false) {
+                stalled += 1;
+            }
+            g
+        };
+        if !go || stalled >= 3 {
+            break;
+        }
+    }
+    // final collection of results: every receiver nobody will await any more, twice
+    let alive = w.borrow().events.last().map(|e| e.ev != "panic").unwrap_or(true) && !w.borrow().cut;
+    if alive {
+        let n = w.borrow().next_id;
+        for _ in 0..2 {
+            for c in 1..n {
+                let ok = {
+                    let wb = w.borrow();
+                    wb.rx[c].is_some() && (wb.parent[c] == 0 || wb.finished[wb.parent[c]])
+                };
+                if ok {
+                    do_try(&w, c);
+                }
+            }
+        }
+    }
+    teardown(&w)
+}
+
+fn reset_evt(kind: &str, index: i64) -> Evt {
+    Evt { ev: "reset".into(), t: 0, a: 0, r: kind.into(), b: false, v: index, wc: 0 }
+}
+
+fn write_run(out: &mut dyn Write, kind: &str, index: i64, evs: &[Evt]) {
+    writeln!(out, "{}", reset_evt(kind, index).to_json()).unwrap();
+    for e in evs {
+        writeln!(out, "{}", e.to_json()).unwrap();
+    }
+}
+
+fn create(path: &str) -> Box<dyn Write> {
+    Box::new(std::io::BufWriter::with_capacity(1 << 20, std::fs::File::create(path).expect("create output")))
+}
+
+fn cmd_replay(args: &[String]) {
+    let nchan = opt_usize(args, "--chans", 2);
+    let every = opt_usize(args, "--sample-every", 50).max(1);
+    let maxmm = opt_usize(args, "--max-mismatch", 200);
+    let mut mm = create(opt(args, "--mismatch").expect("--mismatch"));
+    let mut sm = create(opt(args, "--sample").expect("--sample"));
+    let (mut n, mut events, mut matched, mut mismatched, mut sampled) = (0u64, 0u64, 0u64, 0u64, 0u64);
+    let mut kinds: std::collections::BTreeMap<String, u64> = Default::default();
+    let mut first_mismatch: Vec<Value> = Vec::new();
+    for line in open_in(args).lines() {
+        let line = line.expect("read");
+        if line.trim().is_empty() {
+            continue;
+        }
+        let v: Value = serde_json::from_str(&line).expect("behaviour json");
+        let h: Vec<Evt> = v.as_array().expect("array").iter().map(|x| Evt::from_tuple(x).expect("event tuple")).collect();
+        let obs = run_behaviour(&h, nchan);
+        n += 1;
+        events += obs.len() as u64;
+        for e in &obs {
+            *kinds.entry(e.ev.clone()).or_default() += 1;
+        }
+        if obs == h {
+            matched += 1;
+            if (n - 1) % every as u64 == 0 {
+                sampled += 1;
+                write_run(&mut sm, "p2", n as i64, &obs);
+            }
+        } else {
+            mismatched += 1;
+            if mismatched <= maxmm as u64 {
+                write_run(&mut mm, "p2", n as i64, &obs);
+                if first_mismatch.len() < 3 {
+                    let i = obs.iter().zip(h.iter()).position(|(a, b)| a != b).unwrap_or(obs.len().min(h.len()));
+                    first_mismatch.push(json!({"behaviour": n, "at": i,
+                        "predicted": h.get(i).map(|e| e.to_json()), "observed": obs.get(i).map(|e| e.to_json())}));
+                }
+            }
+        }
+    }
+    mm.flush().unwrap();
+    sm.flush().unwrap();
+    println!(
+        "{}",
+        json!({"behaviours": n, "events": events, "matched": matched, "mismatched": mismatched,
+               "sampled": sampled, "event_kinds": kinds, "first_mismatch": first_mismatch})
+    );
+}
+
+fn cmd_random(args: &[String]) {
+    let runs = opt_usize(args, "--runs", 100);
+    let p = RandParams {
+        tasks: opt_usize(args, "--tasks", 8),
+        chans: opt_usize(args, "--chans", 3),
+        budget: opt_usize(args, "--budget", 10),
+        steps: opt_usize(args, "--steps", 400),
+        pinned: true,
+    };
+    let base = opt(args, "--seed").and_then(|s| s.parse().ok()).unwrap_or_else(seed);
+    let mut out = create(opt(args, "--out").expect("--out"));
+    let mut events = 0u64;
+    let mut kinds: std::collections::BTreeMap<String, u64> = Default::default();
+    for i in 0..runs {
+        let sd = base.wrapping_mul(1_000_003).wrapping_add(i as u64);
+        let evs = run_random(sd, &p);
+        events += evs.len() as u64;
+        for e in &evs {
+            *kinds.entry(e.ev.clone()).or_default() += 1;
+        }
+        write_run(&mut out, "p3", sd as i64, &evs);
+    }
+    out.flush().unwrap();
+    println!("{}", json!({"runs": runs, "events": events, "event_kinds": kinds}));
+}
+
+/// Re-executes a replay object: {"kind":"p2","h":[events as objects],"chans":K}
+/// or {"kind":"p3","seed":S,"tasks":..,"chans":..,"budget":..,"steps":..}.
+fn cmd_redo(args: &[String]) {
+    let text = std::fs::read_to_string(opt(args, "--in").expect("--in")).expect("read --in");
+    let v: Value = serde_json::from_str(&text).expect("json");
+    let v = v.get("replay").cloned().unwrap_or(v);
+    let mut out = create(opt(args, "--out").expect("--out"));
+    let g = |k: &str, d: usize| v.get(k).and_then(|x| x.as_u64()).map(|x| x as usize).unwrap_or(d);
+    if v.get("kind").and_then(|k| k.as_str()) == Some("p3") {
+        let p = RandParams { tasks: g("tasks", 8), chans: g("chans", 3), budget: g("budget", 10), steps: g("steps", 400), pinned: true };
+        let sd = v.get("seed").and_then(|x| x.as_i64()).unwrap_or(0) as u64;
+        let evs = run_random(sd, &p);
+        write_run(&mut out, "p3", sd as i64, &evs);
+    } else {
+        let h: Vec<Evt> = v.get("h").and_then(|x| x.as_array()).expect("h").iter()
+            .map(|x| Evt::from_obj(x).or_else(|| Evt::from_tuple(x)).expect("event")).collect();
+        let evs = run_behaviour(&h, g("chans", 2));
+        write_run(&mut out, "p2", 0, &evs);
+    }
+    out.flush().unwrap();
+}
+
 fn main() {
-    eprintln!("yv-c15: not implemented yet");
-    std::process::exit(2);
+    quiet_panics();
+    let args: Vec<String> = std::env::args().skip(1).collect();
+    match args.first().map(|s| s.as_str()) {
+        Some("replay") => cmd_replay(&args[1..]),
+        Some("random") => cmd_random(&args[1..]),
+        Some("redo") => cmd_redo(&args[1..]),
+        _ => {
+            eprintln!("usage: yv-c15 replay|random|redo ...");
+            std::process::exit(2);
+        }
+    }
 }
